@@ -215,17 +215,57 @@ func Store(a, i, v T) T {
 	}
 	return App(a.Sort, "store", a, i, v)
 }
+// ConstArr: constant array. For element values that are not SMT literals (uninterpreted sorts) cvc5
+// rejects (as const ...), so a declared array constant with a quantified definition is used instead.
+var zeroArrays = map[string]string{} // symbol -> axiom
+
 func ConstArr(s Sort, v T) T {
-	return T{fmt.Sprintf("((as const %s) %s)", s, v.S), s}
+	switch v.S {
+	case "true", "false", "0":
+		return T{fmt.Sprintf("((as const %s) %s)", s, v.S), s}
+	}
+	if strings.HasPrefix(v.S, "(_ +zero") || strings.HasPrefix(v.S, "(mkslice") {
+		return T{fmt.Sprintf("((as const %s) %s)", s, v.S), s}
+	}
+	k, _ := arrParts(s)
+	name := "zarr_" + sortSuffix(s) + "_" + sanitizeSym(v.S)
+	zeroArrays[name] = fmt.Sprintf("(declare-const %s %s)\n(assert (forall ((k!z %s)) (! (= (select %s k!z) %s) :pattern ((select %s k!z)))))\n", name, s, k, name, v.S, name)
+	return T{name, s}
 }
 
-// Slice accessors
-func SPtr(s T) T { return App(SInt, "sptr", s) }
-func SOff(s T) T { return App(SInt, "soff", s) }
-func SLen(s T) T { return App(SInt, "slen", s) }
-func SCap(s T) T { return App(SInt, "scap", s) }
+func sanitizeSym(s string) string {
+	var b strings.Builder
+	for _, c := range s {
+		if c >= 'a' && c <= 'z' || c >= 'A' && c <= 'Z' || c >= '0' && c <= '9' {
+			b.WriteRune(c)
+		} else {
+			b.WriteByte('_')
+		}
+	}
+	return b.String()
+}
+
+// Slice accessors. sliceParts remembers the components of symbols defined as (mkslice ...) so that
+// accessor applications simplify syntactically (fewer arithmetic terms for the solver to match on).
+var sliceParts = map[string][4]T{}
+
+func slicePart(s T, i int, fn string) T {
+	if p, ok := sliceParts[s.S]; ok {
+		return p[i]
+	}
+	if s.S == NilSlice.S {
+		return Zero
+	}
+	return App(SInt, fn, s)
+}
+func SPtr(s T) T { return slicePart(s, 0, "sptr") }
+func SOff(s T) T { return slicePart(s, 1, "soff") }
+func SLen(s T) T { return slicePart(s, 2, "slen") }
+func SCap(s T) T { return slicePart(s, 3, "scap") }
 func MkSlice(p, o, l, c T) T {
-	return App(SSlice, "mkslice", p, o, l, c)
+	t := App(SSlice, "mkslice", p, o, l, c)
+	sliceParts[t.S] = [4]T{p, o, l, c}
+	return t
 }
 
 var NilSlice = T{"(mkslice 0 0 0 0)", SSlice}
